@@ -406,6 +406,11 @@ def gen_op(rng, w):
             return ["Time", rng.choice([1, 10, 100]), rng.choice([7, 8, 14, 1])]
     if roll < 0.13:
         return ["Time", rng.choice([1, 1, 3, 10, 100, 10000, 10 ** 6]), rng.choice([0, 0, 1, 1, 3, 7, 10, 30, 31])]
+    _paid = max(0, w.last["acc"] - w.last["reserve"])
+    if _paid > 0 and rng.random() < 0.03:
+        # the admin tries to withdraw capacity that was already accrued AND paid out (only un-accrued capacity may leave)
+        _rem = max(0, w.last["cap"] - w.last["acc"])
+        return ["Withdraw", OWNER, _rem + rng.choice([1, _paid, max(1, _paid // 2)])]
     if roll < 0.22:
         kind = rng.random()
         who = rng.choice([OWNER] * 6 + users)
@@ -417,7 +422,9 @@ def gen_op(rng, w):
         if kind < 0.4:
             return ["TopUp", who, log_amount(rng, 10 ** 18)]
         if kind < 0.6:
-            return ["Withdraw", who, rng.choice([0, 1, rem, rem + 1, rem // 2, rng.randint(0, rem + 2)])]
+            paid = max(0, w.last["acc"] - w.last["reserve"])        # accrued and already paid out: must NOT be withdrawable
+            return ["Withdraw", who, rng.choice([0, 1, rem, rem + 1, rem // 2, rng.randint(0, rem + 2),
+                                                 rem + max(1, paid), rem + max(1, paid // 2), max(0, rem - 1)])]
         if kind < 0.72:
             return ["SetApr", who, rng.choice([0, 1, 500, 10000, 10 ** 9])]
         if kind < 0.8:
